@@ -1,5 +1,5 @@
 SPECIFICATION Spec
-CONSTANT MaxN = 8
+CONSTANT MaxN = 9
 INVARIANT InOrder
 INVARIANT NoStarve
 INVARIANT Complete
